@@ -220,6 +220,11 @@ def check(run):
         return PAIR_TARGETS if m["kind"] == "pair" else (["setfl", "DL_POLY_EAM"] if m["kind"] == "eam" else ["setfl_fs", "DL_POLY_EAM_fs"])
     for m in models[: run.n(60, 1000)]:
         e2e(m, rng.choice(targets_of(m)), rng.random() < 0.5, species_set(rng, m, allow_empty=False), rng.choice(["api", "cli"]))
+    # the empty set, both modes, both routes: `--include-species` with no label keeps nothing, `--exclude-species` with no label removes nothing
+    for m in models[: run.n(6, 60)]:
+        for exclude in (False, True):
+            for route in ("api", "cli"):
+                e2e(m, rng.choice(targets_of(m)), exclude, [], route)
     # several views of ONE parsed file tabulated one after the other (seed C13_6: rows cached per parser object - wrapt proxies hash and compare like the wrapped
     # parser, so a cache keyed on "the parser" is shared by every view): each view's table must be the table of ITS hand-edited file, whatever was tabulated before
     nseq = 0
